@@ -227,6 +227,11 @@ func c19UnusedGen(c *engine.C) engine.Case {
 	mask := c.Choose(16, "imported-groups")
 	twoFiles := c.Bool("imports-split-over-two-files")
 	importForm := c.Choose(3, "import-form")
+	testOnly := c.Bool("last-imported-group-is-imported-only-by-a-test-class")
+	throughCmd := c.Bool("through-the-deps-command")
+	if throughCmd {
+		c.Tag("cli")
+	}
 	return func() engine.Result {
 		var imported []string
 		for i, g := range c19Groups {
@@ -256,7 +261,16 @@ func c19UnusedGen(c *engine.C) engine.Case {
 		} else {
 			files = append(files, FileSpec{Path: "pom.xml", Content: build})
 		}
-		if twoFiles && len(imported) > 1 {
+		if testOnly && len(imported) > 0 {
+			// test sources count: a dependency used only by tests is used
+			last := imported[len(imported)-1]
+			files = append(files, FileSpec{Path: "src/test/java/my/app/ATest.java", Content: mk("ATest", []string{last})})
+			if len(imported) > 1 {
+				files = append(files, FileSpec{Path: "src/main/java/my/app/A.java", Content: mk("A", imported[:len(imported)-1])})
+			} else {
+				files = append(files, FileSpec{Path: "src/main/java/my/app/A.java", Content: mk("A", nil)})
+			}
+		} else if twoFiles && len(imported) > 1 {
 			files = append(files, FileSpec{Path: "src/main/java/my/app/A.java", Content: mk("A", imported[:1])}, FileSpec{Path: "src/main/java/my/app/B.java", Content: mk("B", imported[1:])})
 		} else {
 			files = append(files, FileSpec{Path: "src/main/java/my/app/A.java", Content: mk("A", imported)})
@@ -306,6 +320,27 @@ func c19UnusedGen(c *engine.C) engine.Case {
 			gotStrict = append(gotStrict, d)
 		}
 		res.Violations = append(res.Violations, compareDeps("unused", gotStrict, wantUnused)...)
+		if throughCmd {
+			// the table of the deps sub-command (analysis/dep) must list what the application function returns
+			r := runCLIOf("dep", root, "deps", "-p", ".")
+			if r.Exit != 0 {
+				res.Violations = append(res.Violations, engine.V("deps-command", "exit-status", "deps -p . exited %d: %s", r.Exit, trimTo(r.Stderr+r.Stdout, 500)))
+				return res
+			}
+			var rows, wantRows []string
+			for _, row := range tableRows(r.Stdout) {
+				if len(row) == 3 && strings.ToUpper(row[0]) == "GROUPID" {
+					continue
+				}
+				rows = append(rows, strings.Join(row, "|"))
+			}
+			for _, d := range got {
+				wantRows = append(wantRows, strings.Join([]string{d.GroupId, d.ArtifactId, d.Scope}, "|"))
+			}
+			if strings.Join(rows, "\n") != strings.Join(wantRows, "\n") {
+				res.Violations = append(res.Violations, engine.V("deps-command", "table-differs", "the deps command lists\n%s\nDepAnalysisApp.AnalysisPath on the same tree returns\n%s", strings.Join(rows, "\n"), strings.Join(wantRows, "\n")))
+			}
+		}
 		return res
 	}
 }
@@ -325,7 +360,7 @@ func init() {
 		Sections: []engine.Section{
 			{Name: "pom", KQuick: 3, KThor: 4, Gen: c19PomGen},
 			{Name: "gradle", KQuick: 3, KThor: 4, Gen: c19GradleGen},
-			{Name: "unused", KQuick: 2, KThor: 3, Gen: c19UnusedGen},
+			{Name: "unused", KQuick: 3, KThor: 4, Gen: c19UnusedGen},
 		},
 	})
 }
